@@ -88,7 +88,7 @@ def candidates(pre, opcode, OPC, thorough=True):
     tails = []
     rests = ((0x00, 0x00, 0x00, 0x00), (0x01, 0x7F, 0x80, 0x0F), (0xFF, 0xFF, 0xFF, 0xFF), (0x80, 0x01, 0xFF, 0x02))
     for b1 in range(256):
-        for rest in (rests if thorough else rests[1:2]):
+        for rest in (rests if thorough else rests[0:2]):
             tails.append((b1,) + rest)
     for n in (named if thorough else named[::5]):
         tails.append((n, 0x10, 0x20, 0x03, 0x00))
@@ -183,3 +183,99 @@ def unit(unit):
                 undecided_notes=[], stats=dict(paths=evals, queries=0, solver_s=0.0), by_backend={"enumeration": evals - len(failed)},
                 wall_s=round(time.time() - t0, 2), allow_empty=(evals == 0),
                 sample=dict(bytes=results[0]["bytes"], text=results[0]["text"], source=results[0]["src"]) if results else None)
+
+def unit_listing(unit):
+    """A disassembly listing fed to ONE Assembler in one assemble() call gives the bytes the lines give
+    one by one (no state carried from line to line).  Lines = up to `per_opcode` encodings per opcode
+    that round-trip on their own, laid out consecutively; forward and reversed order."""
+    t0 = time.time()
+    ARCH, decode, OPCODES, OPC, ASM, TOK, ILF = _setup()
+    arch = ARCH.SC62015()
+    pre = unit.get("pre")
+    per = unit.get("per_opcode", 4)
+    picks = []
+    for opcode in range(256):
+        if opcode in PRE_BYTES:
+            continue
+        got = 0
+        seen = set()
+        tries = 0
+        for b in candidates(pre, opcode, OPC, False)[::37]:
+            if got >= per or tries >= 3 * per:
+                break
+            info = arch.get_instruction_info(b, 0x1000)
+            if info is None:
+                continue
+            enc = bytes(b[:info.length])
+            key = enc[:len(enc) - 0] if len(enc) <= 2 else enc[:2 + (1 if pre is not None else 0)]
+            if key in seen:
+                continue
+            seen.add(key)
+            tries += 1
+            if check_encoding(enc, 0x1000, (decode, OPCODES, ASM, TOK, ILF))["fail"] is None:
+                picks.append(enc)
+                got += 1
+    obs = []
+
+    def run(order, tag):
+        addr = 0x1000
+        lines, want = [], b""
+        for enc in order:
+            ins = decode(enc, addr, OPCODES)
+            text = text_for_assembler(ins.render(), TOK)
+            try:
+                ob = bytes(ASM.Assembler().assemble(f".ORG 0x{addr:X}\n{text}\n").as_binary())
+            except Exception:  # noqa: BLE001
+                continue            # not assemblable at this address on its own (address-dependent text): not part of the listing
+            if len(ob) != len(enc):
+                continue
+            lines.append((addr, text, ob))
+            want += ob
+            addr += len(ob)
+        src = ".ORG 0x1000\n" + "\n".join(t for _, t, _ in lines) + "\n"
+        try:
+            got = bytes(ASM.Assembler().assemble(src).as_binary())
+            err = None
+        except Exception as e:  # noqa: BLE001
+            got, err = None, f"{type(e).__name__}: {str(e)[:200]}"
+        ok = got == want
+        detail = None
+        if not ok:
+            if err:
+                detail = f"{tag}: the listing of {len(lines)} lines is rejected: {err}"
+            else:
+                pos = next((i for i in range(min(len(got), len(want))) if got[i] != want[i]), min(len(got), len(want)))
+                a = 0x1000 + pos
+                ln = next(((ad, t, ob) for ad, t, ob in lines if ad <= a < ad + len(ob)), lines[-1])
+                k = lines.index(ln)
+                detail = (f"{tag}: line {k} '{ln[1]}' at {ln[0]:#x} assembles to {got[ln[0]-0x1000:ln[0]-0x1000+len(ln[2])].hex()} inside the listing, "
+                          f"{ln[2].hex()} on its own; previous line '{lines[k-1][1] if k else ''}'")
+        o = dict(name=f"listing:{tag}:same-bytes-as-line-by-line", status="proved" if ok else "failed", backend="enumeration",
+                 model=None if ok else dict(listing=src, want=want.hex()), detail=detail)
+        obs.append(o)
+        return len(lines)
+
+    n1 = run(picks, "forward")
+    n2 = run(list(reversed(picks)), "reversed")
+    failed = [o for o in obs if o["status"] == "failed"]
+    return dict(unit=unit, status="ok", error=None, kinds={"lines": n1 + n2}, obligations=len(obs), proved=len(obs) - len(failed),
+                failed=failed, nfailed=len(failed), unknown=0, undecided_notes=[], stats=dict(paths=n1 + n2, queries=0, solver_s=0.0),
+                by_backend={"enumeration": len(obs) - len(failed)}, wall_s=round(time.time() - t0, 2))
+
+
+def replay_listing(body):
+    model = body.get("model") or {}
+    if "listing" not in model:
+        return 4, "no listing recorded"
+    ARCH, decode, OPCODES, OPC, ASM, TOK, ILF = _setup()
+    try:
+        got = bytes(ASM.Assembler().assemble(model["listing"]).as_binary())
+    except Exception as e:  # noqa: BLE001
+        return 1, f"the listing is rejected natively: {type(e).__name__}: {str(e)[:200]}"
+    if got.hex() != model["want"]:
+        return 1, "one Assembler given the whole listing produces other bytes than the lines one by one: " + str(body.get("detail"))[:400]
+    return 0, "the listing assembles to the line-by-line bytes natively"
+
+
+def unit_any(unit):
+    return unit_listing(unit) if unit.get("fn") == "unit_listing" else globals()["unit"](unit)
